@@ -347,6 +347,31 @@ def r5_clone(ctx):
     if not found:
         # then State(...) constructor's fresh dict is used: clone has no values -> also fine only if values copied otherwise
         raise AnalysisError("C01.R5", "anchor vanished: `cloned._values = ...` in State.clone")
+    # the clone starts from the constructor (no snapshot, its own containers); built as a shallow copy of the source it shares everything that is
+    # not re-bound afterwards - in particular the pending snapshot, which a later revert on the clone would restore
+    cfg = CFG(f.node)
+    rets = [n for n, st in cfg.stmt.items() if isinstance(st, ast.Return) and isinstance(st.value, ast.Name)]
+    for rn in rets:
+        var = cfg.stmt[rn].value.id
+        defs = [(n, st) for n, st in cfg.stmt.items() if isinstance(st, ast.Assign) and len(st.targets) == 1 and U(st.targets[0]) == var]
+        for dn, st in defs:
+            v = st.value
+            ctor = isinstance(v, ast.Call) and U(v.func) in ("State", "type(self)", "self.__class__", "cls")
+            if ctor:
+                ctx.ok("C01.R5", f, st, "the clone is built by the constructor (no snapshot, fresh containers)", construct="clone built by the constructor")
+                continue
+            shallow = isinstance(v, ast.Call) and U(v.func) in ("copy.copy", "copy", "object.__new__", "State.__new__")
+            if not shallow:
+                ctx.unknown("C01.R5", f, st, f"the clone is created by `{U(v)[:60]}`", construct="clone built by the constructor")
+                continue
+            missing = []
+            for attr in PROTECTED:
+                sets = [n for n, s2 in cfg.stmt.items() if isinstance(s2, ast.Assign) and any(U(t) == f"{var}.{attr}" for t in s2.targets)]
+                if not (sets and cfg.all_paths_pass(dn, sets, end=rn)):
+                    missing.append(attr)
+            ctx.check(not missing, "C01.R5", f, st, "shallow copy, with `_values` and `_last_fork` re-bound on every path",
+                      f"the clone is a shallow copy of the source (`{U(v)}`) and {missing} is not re-bound on every path: by default the clone keeps the source's pending snapshot, so a revert on the "
+                      "clone (which should find none) restores values from before an assignment of the source and serves its descendants stale", construct="clone built by the constructor")
 
 
 def r6_purity(ctx):
